@@ -52,6 +52,14 @@ Hardening pass 3 (HARDENING3.md).
                         view / np.conj, K = 1, 2, 3 incl. K == M == N), judged against the list form and the product law;
                         DM.render_backprop (which passes such a stack) under the contract; prime / awkward sizes >= 64 (65, 67, 74,
                         101, 127, 129, 131; thorough to 521) with dense content that wraps around the border
+
+Hardening pass 4 (HARDENING4.md), class G again.
+  G absolute energy     mtf / otf / ptf_from_psf of one non-negative PSF whose total energy (= DC term) runs over 1e-30 ... 1e30 in
+                        float64 and 1e-12 ... 1e12 in float32 (also under config.precision = 32), on both sides of eps, sqrt(eps) and
+                        1/eps of the dtype, array and RichData form: MTF(0) == 1 and OTF(0) == 1+0j to round-off, MTF <= 1, symmetry,
+                        OTF/MTF/PTF consistency, equality with the unit-energy float64 result, DFT-matrix contract (keys carry
+                        /scale:energy=<below-eps|tiny|huge|above-inverse-eps>/<dtype>); conv and apply_transfer_functions bilinear at
+                        factors 1e-30 ... 1e30 (float64) / 1e-12 ... 1e12 (float32 operands, complex64 transfer functions)
 """
 import functools
 import math
@@ -81,7 +89,11 @@ RULE = ('shapes enumerated smallest first (all (n0,n1) up to a bound incl. 1xN, 
         'container workload (K = 1, 2, 3 transfer functions of 4 dtype kinds as a (K, M, N) ndarray in 5 forms, all-ones / all-zero '
         'stacks), a magnitude workload (8 factor pairs 1e-12 ... 1e12 through conv, array and callable transfer functions, 4 factors '
         'through mtf/otf/ptf, 4 unit factors) and a special-value workload (impulses at up to 25 edge / corner / origin-adjacent '
-        'positions, 16 special translations as array and as callable, constant / zero operands); awkward sizes >= 64 with dense operands')
+        'positions, 16 special translations as array and as callable, constant / zero operands); awkward sizes >= 64 with dense operands.  '
+        'Hardening pass 4: per shape (12 fixed incl. 1xN, 65x64 + random) x (float64, float32, float32 under precision 32) one non-negative '
+        'unit-energy PSF (random / off-centre gaussian / double delta) scaled to 14 (float64: 1e-30 ... 1e30) or 13 (float32: 1e-12 ... 1e12) '
+        'total energies, alternately as array and RichData, through mtf / otf / ptf_from_psf; 7 extreme factor pairs through conv and '
+        'apply_transfer_functions in the same dtype')
 ASSUMPTIONS = ['origin sample of an axis of length n is index n//2 (C04 convention); the routines are FFT based so '
                'circular (roll) shifts are the exact model',
                'documented frequency grid of apply_transfer_functions: zero frequency at the centre sample (n//2) for '
@@ -107,7 +119,10 @@ ASSUMPTIONS = ['origin sample of an axis of length n is index n//2 (C04 conventi
                'itself passes one (x.dm.DM.render_backprop: np.conj(self.tf)); a bare 2-D array as `tfs` is iterated row by row today, '
                'means something else and is not driven',
                'magnitudes: every scale in the laws is relative (reference norm), so factors 1e-12 ... 1e12 are judged at the ordinary 1e-10; '
-               'the unit-change law is judged at 1e-9 (the rescaled frequency x length products differ by a few ulp in their arguments)']
+               'the unit-change law is judged at 1e-9 (the rescaled frequency x length products differ by a few ulp in their arguments)',
+               'a non-negative PSF is a PSF in any radiometric units: total energies 1e-30 ... 1e30 (float64) and 1e-12 ... 1e12 (float32) keep '
+               'every sample, spectrum and product of two spectra inside the normal range of the dtype, so the FFT and the division by the DC '
+               'term are scale invariant to round-off and the ordinary thresholds (1e-10; 2e-4 / MTF(0) 1e-5 for float32) apply unchanged']
 REQUIRED = ['conv.model', 'conv.linearity', 'conv.commutativity', 'conv.impulse-identity', 'conv.impulse-translation',
             'conv.energy', 'atf.model', 'atf.list-vs-product', 'atf.ones-identity', 'atf.linear-phase',
             'atf.callable-vs-array', 'mtf.dc', 'mtf.max', 'mtf.point-symmetry', 'otf.abs-vs-mtf', 'otf.arg-vs-ptf',
@@ -117,7 +132,7 @@ REQUIRED = ['conv.model', 'conv.linearity', 'conv.commutativity', 'conv.impulse-
             'form.callable-signature', 'form.conv-dtype', 'form.atf-dtype', 'form.otf-dtype', 'form.dx', 'form.grid',
             'form.call-syntax', 'foreign.cases',
             'form.tfs-stack', 'scale.conv', 'scale.atf', 'scale.units', 'scale.otf', 'special.conv', 'special.atf', 'special.otf',
-            'size.awkward']
+            'size.awkward', 'scale.otf-energy']
 
 CTX = None
 WL = {}          # label of the workload that is driving the contracts right now (goes into contract witnesses)
@@ -612,6 +627,7 @@ def run(ctx):
         _run_forms(ctx)
         _run_foreign(ctx)
         _run_pass3(ctx)
+        _run_pass4(ctx)
         _run_rejections(ctx)
         _run_internal(ctx)
     finally:
@@ -2181,6 +2197,114 @@ def _run_pass3(ctx):
                     _atf_case(ctx, atf, r, shape, cls, shift, 'dx', [1.0, 0.25, 3.7][int(r.integers(3))], d2)
             if shape[0] * shape[1] <= 20000:
                 _p3_stack(ctx, atf, r, shape, shift, desc, light=True)
+
+
+# ------------------------------------------------------------------------------------------- hardening pass 4: class G again
+# total energy (= DC term) of the PSF in absolute units, on both sides of every "natural" absolute threshold of its dtype
+# (eps, sqrt(eps), eps**2, 1e-20 / 1e-25 style guards, and the mirror images above 1)
+P4_SHAPES = [(1, 9), (6, 1), (2, 2), (3, 3), (4, 5), (7, 7), (8, 8), (12, 9), (17, 20), (32, 32), (65, 64), (1, 131)]
+ENERGIES = {'float64': [1e-30, 1e-25, 1e-20, 1e-17, 1e-16, 3e-16, 1e-15, 1e-8, 1e8, 1e15, 1e17, 1e20, 1e25, 1e30],
+            'float32': [1e-12, 1e-10, 1e-8, 1e-7, 2e-7, 1e-6, 1e-4, 1e4, 1e6, 1e7, 1e8, 1e10, 1e12]}
+P4_FACTORS = {'float64': [(1e-30, 1.0), (1.0, 1e-30), (1e-30, 1e-30), (1e-17, 1e-3), (1e30, 1e30), (1e30, 1e-30), (1.0, 1e30)],
+              'float32': [(1e-12, 1.0), (1.0, 1e-12), (1e-12, 1e-12), (1e-8, 1.0), (1.0, 1e-8), (1e12, 1e12), (1e12, 1e-12)]}
+P4_CONFIGS = [('float64', False), ('float32', False), ('float32', True)]     # (dtype of the PSF, config.precision = 32 during the calls)
+
+
+def _energy_class(E, dtype):
+    """Class label of an absolute magnitude: below the machine epsilon of its dtype / below one / above one / above 1/eps."""
+    if E < float(np.finfo(dtype).eps):
+        return 'below-eps'
+    if E > 1.0 / float(np.finfo(dtype).eps):
+        return 'above-inverse-eps'
+    return 'tiny' if E < 1 else 'huge'
+
+
+def _p4_energy(ctx, conv, atf, otf, RichData, r, shape, dtype, cfg32, desc):
+    """MTF / OTF / PTF of one non-negative PSF whose total energy runs over ENERGIES[dtype]: each result satisfies the statement's
+    laws (MTF(0) == 1 to round-off, <= 1, symmetric, OTF/MTF/PTF consistent), equals the result for the unit-energy float64 PSF,
+    and (contract) the DFT-matrix model.  Then conv / apply_transfer_functions bilinearity at the same magnitudes."""
+    n0, n1 = shape
+    c0, c1 = n0 // 2, n1 // 2
+    cls = ['rand-nonneg', 'gauss-offcentre', 'double-delta'][int(r.integers(3))]
+    p, _ = make_psf(cls, shape, r)
+    if cls == 'rand-nonneg':
+        p = p + 0.01
+    p = p / p.sum()
+    dx = [0.5, 1.0, 6.5][int(r.integers(3))]
+    f32 = dtype == 'float32' or cfg32
+    rt = 2e-4 if f32 else RT
+    dlabel = dtype + ('/precision=32' if cfg32 else '')
+    with ctx.guard('C15/otf/scale:energy', desc):
+        m0 = np.asarray(otf.mtf_from_psf(p, dx).data)
+        O0 = np.asarray(otf.otf_from_psf(p, dx).data)
+    for j, E in enumerate(ENERGIES[dtype]):
+        ecls = _energy_class(E, dtype)
+        q = (E * p).astype(dtype)
+        container = ['array', 'RichData'][(j + int(desc['seed'])) % 2]
+        d = dict(desc, psf=cls, energy=E, energy_class=ecls, input=container, dx=dx)
+        tctx = Tagged(ctx, f'/scale:energy={ecls}/{dlabel}')
+        cm = precision(32) if cfg32 else _null()
+        with cm, driving(tctx, wl='pass4:energy'), tctx.guard('C15/otf', d):
+            arg = (RichData(q.copy(), dx, None),) if container == 'RichData' else (q.copy(), dx)
+            m = np.asarray(otf.mtf_from_psf(*arg).data)
+            O = np.asarray(otf.otf_from_psf(*arg).data)
+            ph = np.asarray(otf.ptf_from_psf(*arg).data)
+            ctx.observe('scale.otf-energy')
+            _mtf_validity(tctx, m, O, ph, shape, d, f32)
+            if O.shape == shape:
+                tctx.require('scale.otf-energy', abs(complex(O[c0, c1]) - 1.0) <= (1e-5 if f32 else 1e-12), 'C15/otf/dc-not-1',
+                             'OTF at zero frequency (sample n//2) is not 1+0j', d, got=str(complex(O[c0, c1])))
+            _law(tctx, 'scale.otf-energy', m, m0, 'C15/mtf', 'the MTF depends on the total energy (absolute units) of the PSF', d, rt, 1.0)
+            _law(tctx, 'scale.otf-energy', O, O0, 'C15/otf', 'the OTF depends on the total energy (absolute units) of the PSF', d, rt, 1.0)
+            if ph.shape == O0.shape:
+                _law(tctx, 'scale.otf-energy', np.abs(O0) * np.exp(1j * ph), O0, 'C15/ptf',
+                     'the PTF depends on the total energy (absolute units) of the PSF', d, rt, 1.0)
+    # the image-forming routines at the same magnitudes (they do not normalise: bilinear in object and PSF / transfer function)
+    a = r.standard_normal(shape)
+    h = p * p.size
+    shift = bool(int(desc['seed']) % 2)
+    T = herm_random(shape, r, shift)
+    cm = precision(32) if cfg32 else _null()
+    with cm, driving(ctx, wl='pass4:energy'):
+        with ctx.guard('C15/conv/scale', desc):
+            i0 = np.asarray(conv(a, h), dtype=float)
+            sc = float(np.abs(a).sum()) * float(h.max())
+            for sa, sh in P4_FACTORS[dtype]:
+                d = dict(desc, factors=[sa, sh])
+                _law(ctx, 'scale.conv', conv((sa * a).astype(dtype), (sh * h).astype(dtype)), (sa * sh) * i0,
+                     f'C15/conv/scale:obj={_mag(sa)},psf={_mag(sh)}/extreme/{dlabel}', f'conv({sa:g} a, {sh:g} h) != {sa * sh:g} conv(a, h)',
+                     d, rt, sa * sh * sc)
+        with ctx.guard('C15/atf/scale/arrays', desc):
+            i0 = np.asarray(atf(a, dx, [T], shift=shift), dtype=float)
+            sc = max(float(np.abs(i0).max()), float(np.abs(a).max()) * 1e-3, 1e-300)
+            cdt = 'complex64' if dtype == 'float32' else 'complex128'
+            for sa, st in P4_FACTORS[dtype]:
+                d = dict(desc, factors=[sa, st], shift=shift)
+                _law(ctx, 'scale.atf', atf((sa * a).astype(dtype), dx, [(st * T).astype(cdt)], shift=shift), (sa * st) * i0,
+                     f'C15/atf/scale:obj={_mag(sa)},tf={_mag(st)}/arrays/extreme/{dlabel}',
+                     f'apply_transfer_functions({sa:g} o, [{st:g} t]) != {sa * st:g} apply_transfer_functions(o, [t])', d, rt, sa * st * sc)
+
+
+def _run_pass4(ctx):
+    from prysm import otf
+    from prysm._richdata import RichData
+    from prysm.convolution import apply_transfer_functions as atf, conv
+    rng = ctx.rng('c15-pass4')
+    shapes = list(P4_SHAPES)
+    for _ in range(ctx.pick(4, 700)):
+        shapes.append((int(rng.integers(1, ctx.pick(24, 64) + 1)), int(rng.integers(2, ctx.pick(24, 64) + 1))))
+    k = -1
+    for shape in shapes:
+        for dtype, cfg32 in P4_CONFIGS:
+            k += 1
+            if not ctx.mine(k):
+                continue
+            sub = ctx.subseed(rng)
+            r = np.random.default_rng(sub)
+            desc = {'wl': 'pass4:energy', 'shape': shape, 'dtype': dtype, 'precision32': cfg32, 'seed': sub,
+                    'class': f'pass4:energy:{shape_class(shape)}:{dtype}' + (':precision=32' if cfg32 else '')}
+            ctx.case(desc)
+            _p4_energy(ctx, conv, atf, otf, RichData, r, shape, dtype, cfg32, desc)
 
 
 # ------------------------------------------------------------------------------------------- class F: foreign traffic
